@@ -60,7 +60,45 @@ func cmdC06Dialect(o opts) {
 			}
 		}
 		if o.aux == "c05" {
-			// C05: the valid vectors only (every one, one after the other in one stream, must come out)
+			// C05: what a reader has handed out stays what it was while it goes on. Every history of three frames over
+			// {unknown id (handed out raw), no payload at all, canonical, zero-padded, extended} of one message through
+			// one reader: each frame must come out and - the results are looked at after the whole stream - must still
+			// match the bytes it was read from.
+			em.incomplete = false
+			byD := map[int]map[string][]byte{}
+			var unknown []byte
+			for _, v := range vecs {
+				if v.Kind == "unknown" && v.Ti == 4 {
+					unknown = v.Bytes
+				}
+				if v.Ti == 4 && v.D != 0 {
+					if byD[v.D] == nil {
+						byD[v.D] = map[string][]byte{}
+					}
+					byD[v.D][v.Kind] = v.Bytes
+				}
+			}
+			nd := 0
+			for _, m := range byD {
+				syms := [][]byte{unknown, m["empty"], m["canon"], m["padded"], m["extended"]}
+				ok := true
+				for _, b := range syms {
+					ok = ok && b != nil
+				}
+				if !ok {
+					fatal("c06d -aux c05: vectors of Gen_SignedDl incomplete")
+				}
+				if nd++; nd > 1 && !thorough {
+					break
+				}
+				for a := range syms {
+					for b := range syms {
+						for c := range syms {
+							em.put(em.group(), cat(syms[a], syms[b], syms[c]), -1, "eof", []int{1 + (a+3*b+7*c)%40}, false, cfg, false, "kd_hist3_shapes")
+						}
+					}
+				}
+			}
 			rec.Close()
 			return
 		}
